@@ -96,14 +96,19 @@ pub fn snapshot_session(s: &Session) -> String {
         SessionMode::Case { .. } => "c",
         _ => "g",
     };
+    let port = match s.get_peer_addr() {
+        Address::Udp(a) => a.port(),
+        _ => 0,
+    };
     let mut out = format!(
-        "s{} l{} c{} {}{} {}",
+        "s{} l{} c{} {}{} {} P{}",
         s.id(),
         s.get_local_sess_id(),
         s.verif_msg_ctr(),
         if expired { "e" } else { "-" },
         if reserved { "r" } else { "-" },
-        mode
+        mode,
+        port
     );
     for e in s.verif_exchanges() {
         match e {
@@ -367,6 +372,35 @@ impl<'a, C: Crypto> World<'a, C> {
                     None => "none".into(),
                 }
             }),
+            // swa|swo <port> <local sess id> <exch> <I|R>: accept-timeout / orphan sweep on an occupied RX slot
+            "swa" | "swo" => {
+                let mut hdr = PacketHdr::new();
+                hdr.plain.sess_id = num(2) as u16;
+                hdr.proto.exch_id = num(3) as u16;
+                if w.get(4).copied() == Some("I") {
+                    hdr.proto.set_initiator();
+                }
+                let runner = self.matter.transport_runner(self.crypto);
+                if runner.verif_sweep_rx(w[0] == "swo", addr(num(1) as u16), &hdr) { "cleared".into() } else { "kept".into() }
+            }
+            // the closer of dropped exchanges: `handle_dropped_exchange`
+            "swd" => {
+                let runner = self.matter.transport_runner(self.crypto);
+                match runner.verif_handle_dropped_exchange() {
+                    (Err(e), _) => format!("err {}", err_name(&e)),
+                    (Ok(true), _) => "none".into(),
+                    (Ok(false), None) => "exch".into(),
+                    (Ok(false), Some((hdr, _))) => {
+                        if hdr.proto.proto_id == 0 && hdr.proto.proto_opcode == 0x10 {
+                            format!("exch ack {} ctr {} x {}", show_opt(hdr.proto.get_ack()), hdr.plain.ctr, hdr.proto.exch_id)
+                        } else {
+                            format!("sess x {} ctr {}", hdr.proto.exch_id, hdr.plain.ctr)
+                        }
+                    }
+                }
+            }
+            // leak check marker at quiescence: no action, the driver's oracle inspects the snapshot
+            "qchk" => "ok".into(),
             // lookup of the owner of a received message: `get_exch_for_rx`
             "own" => {
                 let mut hdr = PacketHdr::new();
@@ -440,6 +474,7 @@ pub struct GSess {
     pub ctr: u32,
     pub expired: bool,
     pub reserved: bool,
+    pub port: u32,
     pub slots: Vec<Option<GSlot>>,
 }
 #[derive(Clone, Debug, Default)]
@@ -466,7 +501,7 @@ pub fn parse_snap(full: &str) -> GSnap {
     };
     for chunk in parts.next().unwrap_or("").split(" |") {
         let w: Vec<&str> = chunk.split_whitespace().collect();
-        if w.len() < 5 {
+        if w.len() < 6 {
             continue;
         }
         let mut s = GSess {
@@ -475,9 +510,10 @@ pub fn parse_snap(full: &str) -> GSnap {
             ctr: w[2][1..].parse().unwrap_or(0),
             expired: w[3].starts_with('e'),
             reserved: w[3].ends_with('r'),
+            port: w[5][1..].parse().unwrap_or(0),
             slots: Vec::new(),
         };
-        let mut i = 5;
+        let mut i = 6;
         while i < w.len() {
             if w[i] == "[-]" {
                 s.slots.push(None);
